@@ -17,7 +17,7 @@ import (
 func TestVerifC19(t *testing.T) {
 	vfMain(t, vfCheck{
 		ID: "C19", Level: "exploration",
-		Rule: "unit0: handshake replies from a scripted peer: versions {0,1,2,3,4,2^31,2^32-1,random}, every other packet type in place of VERSION, a valid VERSION with an extension list cut at every byte (re-framed and as stream EOF), arbitrary extension lists; unit1: all 16 ordered subsets of the supported extension names through SetSFTPExtensions, invalid names at every position, VERSION bytes of both servers; unit2+: extended requests with advertised, near-miss, empty, long and random names followed by an ordinary request. A class is (sub-check, case).",
+		Rule:        "unit0: handshake replies from a scripted peer: versions {0,1,2,3,4,2^31,2^32-1,random}, every other packet type in place of VERSION, a valid VERSION with an extension list cut at every byte (re-framed and as stream EOF), arbitrary extension lists; unit1: all 16 ordered subsets of the supported extension names through SetSFTPExtensions, invalid names at every position, VERSION bytes of both servers; unit2+: extended requests with advertised, near-miss, empty, long and random names followed by an ordinary request. A class is (sub-check, case).",
 		Assumptions: []string{"sftpExtensions is a package-level variable: the harness changes it only between sessions"},
 		Units: func(tier vfTier, seed uint64) int {
 			if tier == vfThorough {
